@@ -39,7 +39,9 @@ def model_lines(exe, cmd, texts, timeout=900, shards=None):
     procs = []
     for ch in chunks:
         inp = "\n".join(treeio.text_line(t) for t in ch) + ("\n" if ch else "")
-        procs.append(subprocess.Popen([exe, cmd], stdin=subprocess.PIPE, stdout=subprocess.PIPE, text=True))
+        # the extracted interpreter recurses deeply on long inputs: unlimited stack
+        procs.append(subprocess.Popen(["bash", "-c", "ulimit -s unlimited 2>/dev/null || ulimit -s 1000000; exec \"$0\" \"$1\"", exe, cmd],
+                                      stdin=subprocess.PIPE, stdout=subprocess.PIPE, stderr=subprocess.DEVNULL, text=True))
         procs[-1]._inp = inp
     outs = []
     for p in procs:
@@ -76,7 +78,7 @@ def real_parse_line(r, sk_index, with_counts=None):
     if "panic" in r or "crash" in r:
         return "PANIC"
     errs = " ".join("%d:%d:%s" % (e[0], e[1], e[2].replace(" ", "_")) for e in r["errors"])
-    return real_tree_line(r["tree"], sk_index) + " | " + errs
+    return (real_tree_line(r["tree"], sk_index) + " | " + errs).strip()
 
 
 def model_parse_core(line):
@@ -85,3 +87,65 @@ def model_parse_core(line):
         return line
     tree, errs, _counts = line.split("|")
     return (tree.strip() + " | " + errs.strip()).strip()
+
+
+# ------------------------------------------------------------------ C01 / C02 oracles on parsedump output
+
+def char_boundaries(text):
+    """set of byte offsets that lie between two characters of text (0 and len included)"""
+    b, off = {0}, 0
+    for ch in text:
+        off += len(ch.encode("utf-8"))
+        b.add(off)
+    return b, off
+
+
+def real_leaves(r):
+    """[(kind, lo, hi)] of a parsedump result (tree or --flat form), in document order"""
+    if "leaves" in r:
+        return [tuple(x) for x in r["leaves"]]
+    out = []
+    stack = [r["tree"]]
+    while stack:
+        n = stack.pop()
+        if n[0] == "T":
+            out.append((n[1], n[2], n[3]))
+        else:
+            stack.extend(reversed(n[4]))
+    return out
+
+
+def lossless_oracle(text, r):
+    """C01 stated on the real parser's observation; returns None or a description of the failure"""
+    if "panic" in r or "crash" in r:
+        return "parser did not produce a tree: " + str(r.get("panic", r.get("crash")))[:200]
+    if not r.get("text_ok"):
+        return "syntax_node().text() != input"
+    bnd, total = char_boundaries(text)
+    pos = 0
+    for (k, lo, hi) in real_leaves(r):
+        if lo != pos:
+            return "token %s range %d..%d does not start at the running offset %d" % (k, lo, hi, pos)
+        if hi < lo:
+            return "token %s has a reversed range %d..%d" % (k, lo, hi)
+        if lo not in bnd or hi not in bnd:
+            return "token %s range %d..%d is not on character boundaries" % (k, lo, hi)
+        pos = hi
+    if pos != total:
+        return "leaves end at byte %d, the text has %d bytes" % (pos, total)
+    return None
+
+
+def errors_oracle(text, r):
+    """C02 (error part): every error has a non-empty message and a range inside the text on char boundaries"""
+    if "panic" in r or "crash" in r:
+        return "parser panicked or died: " + str(r.get("panic", r.get("crash")))[:200]
+    bnd, total = char_boundaries(text)
+    for (lo, hi, msg) in r["errors"]:
+        if msg == "":
+            return "error at %d..%d has an empty message" % (lo, hi)
+        if not (0 <= lo <= hi <= total):
+            return "error range %d..%d outside the text (len %d)" % (lo, hi, total)
+        if lo not in bnd or hi not in bnd:
+            return "error range %d..%d not on character boundaries" % (lo, hi)
+    return None
